@@ -668,6 +668,7 @@ fn c06_scenarios(tier: Tier) -> Vec<Scenario> {
     let followups: Vec<Action> = bodies.iter().take(6).map(|b| Action::Tx { ops: b.clone(), commit: true }).collect();
     let mut sc = Scenario::new("rollback-menu", Cfg::default(), setup.clone(), Box::new(alpha), if q { 3 } else { 5 }, or);
     sc.drop_keeps_digest = true;
+    sc.failed_calls_noop = true;
     sc.bisim_followups = followups;
     out.push(sc);
     // one header slot torn (as a crash or a short header write leaves it), then commits that fail at
@@ -690,6 +691,40 @@ fn c06_scenarios(tier: Tier) -> Vec<Scenario> {
         }
         let or2 = Oracles { rets: true, dump_after: true, fileck: true, dbcheck: true, ..Oracles::NONE };
         let sc = Scenario::new("torn-slot-failing-commits", Cfg::default(), vec![tx(vec![OpSpec::bucket("create", &[], "b"), OpSpec::put(&["b"], "k0", "w*300"), OpSpec::put(&["b"], "k1", "w*300")]), tx(vec![OpSpec::put(&["b"], "k2", "w*300")])], Box::new(alpha), if q { 3 } else { 4 }, or2);
+        out.push(sc);
+    }
+    // calls that return an error inside transactions that are then committed, on a bucket that
+    // spans several leaves (the refused call addresses another leaf than the real change): the
+    // commit must write exactly what it writes without those calls
+    {
+        let mut mk = vec![OpSpec::bucket("create", &[], "t"), OpSpec::bucket("create", &[], "u")];
+        for i in 0..8 {
+            mk.push(OpSpec::put(&["t"], &format!("a{}", i), "w*300"));
+        }
+        for n in ["a0s", "a7s"] {
+            mk.push(OpSpec::bucket("create", &["t"], n));
+            mk.push(OpSpec::put(&["t", n], "in", "v*20"));
+        }
+        for i in 0..40 {
+            mk.push(OpSpec::bucket("create", &[], &format!("r{:02}-pad-pad-pad-pad-pad-pad-pad", i)));
+        }
+        let t = |v: Vec<OpSpec>| Action::Tx { ops: v, commit: true };
+        let alpha: Vec<Action> = vec![
+            t(vec![OpSpec::put(&["t"], "a0s", "v*8"), OpSpec::put(&["t"], "a7", "y*300")]),
+            t(vec![OpSpec::bucket("create", &["t"], "a0s"), OpSpec::put(&["t"], "a7", "z*300")]),
+            t(vec![OpSpec::bucket("create", &["t"], "a7s"), OpSpec::put(&["t"], "a0", "y*300")]),
+            t(vec![OpSpec::put(&["t"], "a7s", "v*8"), OpSpec::put(&["t"], "a0", "z*300")]),
+            t(vec![OpSpec::del(&["t"], "nope"), OpSpec::bucket("delb", &["t"], "a3"), OpSpec::bucket("goc", &["t"], "a4"), OpSpec::put(&["t"], "a0", "q*300")]),
+            t(vec![OpSpec::bucket("delb", &["t"], "zzz"), OpSpec::bucket("getb", &["t"], "zzz"), OpSpec::put(&["t"], "a7", "q*300")]),
+            // the same at the root, which spans several leaves too
+            t(vec![OpSpec::bucket("create", &[], "r00-pad-pad-pad-pad-pad-pad-pad"), OpSpec::bucket("delb", &[], "nope"), OpSpec::put(&["u"], "k", "v*8")]),
+            t(vec![OpSpec::bucket("create", &[], "u"), OpSpec::put(&["t"], "a3", "m*300")]),
+            t(vec![OpSpec::put(&["t"], "a3", "n*300")]),
+            Action::Reopen,
+        ];
+        let or4 = Oracles { rets: true, dump_after: true, fileck: true, dbcheck: true, ..Oracles::NONE };
+        let mut sc = Scenario::new("failed-calls-inside-commits", Cfg::default(), vec![tx(mk), Action::Reopen], Box::new(alpha), if q { 2 } else { 3 }, or4);
+        sc.failed_calls_noop = true;
         out.push(sc);
     }
     // strict mode on a file with a leaked page: commits report an error of their own, and a commit
